@@ -60,8 +60,13 @@ type Decl struct {
 	Pure     bool // spec func with scalar-only signature
 	Opaque   bool // spec func: definition hidden unless a unit says `reveal name`
 	Reveal   []string
+	Uninterp bool // spec func without SMT definition (declare-fun); its Go body is used for replay / stand-ins only
+	Axiom    bool // lemma assumed, not proved (must be backed by a bounded stand-in)
+	Shapes   []*Clause
+	Checked  string // axiom: name of the stand-in that checks it
 }
 
+var reUseFor = regexp.MustCompile(`^(.*\))\s+for\s+(\w+)\s+in\s+(-?\d+)\.\.(-?\d+)$`)
 var reTags = regexp.MustCompile(`\[((?:C\d+\s*)+)\]\s*$`)
 var reFuncSig = regexp.MustCompile(`^(?:\(\s*(\w+)\s+\*?(\w+)\s*\)\s*)?(\w+)\s*\((.*?)\)\s*(.*)$`)
 
@@ -98,6 +103,21 @@ func parseContractFile(path, pkgPath, pkgName string) ([]*Decl, error) {
 				body = strings.TrimSpace(body[:len(body)-len(m[0])])
 			}
 			switch {
+			case body == "gocode":
+				d.Kind = "gocode"
+				inBody = true
+				decls = append(decls, d)
+				cur = d
+				continue
+			case strings.HasPrefix(body, "uninterp spec func "):
+				d.Kind = "spec"
+				d.Uninterp = true
+				d.Sig = strings.TrimPrefix(body, "uninterp spec func ")
+			case strings.HasPrefix(body, "axiom "):
+				d.Kind = "lemma"
+				d.Trusted = true
+				d.Axiom = true
+				d.Sig = strings.TrimPrefix(body, "axiom ")
 			case strings.HasPrefix(body, "opaque spec func "):
 				d.Kind = "spec"
 				d.Opaque = true
@@ -168,6 +188,9 @@ func parseContractFile(path, pkgPath, pkgName string) ([]*Decl, error) {
 			}
 			cur.Body = rest
 			curClause = &Clause{Kind: "specbody"}
+		case "derived":
+			// derived EXPR: a consequence of requires + ensures (proved from them alone), assumed by callers like an ensures
+			newClause("derived", rest)
 		case "requires", "ensures", "panics_iff", "invariant", "assert", "assume":
 			newClause(kw, rest)
 		case "use":
@@ -177,6 +200,18 @@ func parseContractFile(path, pkgPath, pkgName string) ([]*Decl, error) {
 			anchor := ""
 			if i := strings.LastIndex(rest, "@"); i >= 0 {
 				txt, anchor = strings.TrimSpace(rest[:i]), strings.TrimSpace(rest[i+1:])
+			}
+			// use L(args) for VAR in lo..hi : one instance per value (textual substitution of VAR)
+			if m := reUseFor.FindStringSubmatch(txt); m != nil {
+				var lo, hi int
+				fmt.Sscan(m[3], &lo)
+				fmt.Sscan(m[4], &hi)
+				re := regexp.MustCompile(`\b` + regexp.QuoteMeta(m[2]) + `\b`)
+				for k := lo; k <= hi; k++ {
+					c := newClause("use", re.ReplaceAllString(strings.TrimSpace(m[1]), fmt.Sprint(k)))
+					c.SplitVar = anchor
+				}
+				break
 			}
 			c := newClause("use", txt)
 			c.SplitVar = anchor
@@ -224,6 +259,20 @@ func parseContractFile(path, pkgPath, pkgName string) ([]*Decl, error) {
 			lh := strings.SplitN(strings.TrimSpace(rest[k+4:]), "..", 2)
 			c := newClause("split", strings.TrimSpace(rest[:k]))
 			c.SplitVar, c.SplitLo, c.SplitHi = c.Text, lh[0], lh[1]
+		case "shape":
+			// shape FIELD list N TYPE | slice N | mapkeys VAR | strlist VAR
+			c := newClause("shape", rest)
+			cur.Shapes = append(cur.Shapes, c)
+		case "checked_by":
+			cur.Checked = rest
+		case "domain":
+			// domain VAR LO HI  (axioms: finite domain enumerated by the bounded stand-in)
+			c := newClause("domain", rest)
+			f := strings.Fields(rest)
+			if len(f) != 3 {
+				return nil, fmt.Errorf("%s:%d: domain needs VAR LO HI", path, ln+1)
+			}
+			c.SplitVar, c.SplitLo, c.SplitHi = f[0], f[1], f[2]
 		case "reveal":
 			cur.Reveal = append(cur.Reveal, strings.Fields(rest)...)
 		case "modifies":
